@@ -349,6 +349,8 @@ class Machine:
                 raise Unsupported("terminator " + k)
 
     def do_call(self, name, info, args, t, depth):
+        if name is not None and args and isinstance(args[0], OnceIter) and mir.norm(name).endswith("::next") and "std::iter::" in name:
+            return args[0].next()         # adaptor structs (Filter, Map, ..) are modelled by their eagerly computed item list
         if name is None:
             # call of a closure value through Fn* traits is resolved by the driver; anything else is outside the model
             raise Unsupported("indirect call at %s" % _loc(t))
@@ -461,6 +463,49 @@ def _all(m, a, d):
             return 0
 
 
+def _drain(it):
+    out = []
+    while True:
+        x = it.next()
+        if x.variant == 0:
+            return out
+        out.append(x.fields[0])
+
+
+def _filter(m, a, d):
+    it, clo = a[0], a[1]
+    if not isinstance(it, OnceIter):
+        return Opaque("filter over unknown iterator")
+    keep = []
+    for x in _drain(it):
+        r = m.call_closure(clo, [x], d)
+        if not isinstance(r, int):
+            raise Unsupported("filter predicate outside the model")
+        if r:
+            keep.append(x)
+    return OnceIter(keep)
+
+
+def _map(m, a, d):
+    it, clo = a[0], a[1]
+    if not isinstance(it, OnceIter):
+        return Opaque("map over unknown iterator")
+    return OnceIter([m.call_closure(clo, [x], d) for x in _drain(it)])
+
+
+def _find(m, a, d):
+    it, clo = a[0], a[1]
+    if not isinstance(it, OnceIter):
+        return Opaque("find over unknown iterator")
+    for x in _drain(it):
+        r = m.call_closure(clo, [x], d)
+        if not isinstance(r, int):
+            raise Unsupported("find predicate outside the model")
+        if r:
+            return some(x)
+    return none()
+
+
 def _next(m, a, d):
     return a[0].next() if isinstance(a[0], OnceIter) else Opaque("next")
 
@@ -536,7 +581,8 @@ MODELS = {
     "core::slice::is_empty": _is_empty, "core::slice::<impl [T]>::is_empty": _is_empty,
     "core::slice::len": _len,
     "std::ops::RangeInclusive::new": _range_new, "std::ops::RangeInclusive::contains": _range_contains, "std::ops::Range::contains": _range_contains,
-    "std::iter::Iterator::any": _any, "std::iter::Iterator::all": _all,
+    "std::iter::Iterator::any": _any, "std::iter::Iterator::all": _all, "std::iter::Iterator::filter": _filter, "std::iter::Iterator::map": _map,
+    "std::iter::Iterator::find": _find,
     "<I as std::iter::IntoIterator>::into_iter": _ident, "std::iter::IntoIterator::into_iter": _ident,
     "std::option::Option::unwrap_or": _unwrap_or, "std::result::Result::unwrap_or": _unwrap_or, "std::option::Option::is_some": _is_some,
     "std::option::Option::map": _option_map, "std::option::Option::is_some_and": _is_some_and,
